@@ -121,6 +121,24 @@ def run_case(mod, case):
     return out
 
 
+def _confirm_or_fail(mod, rec):
+    """Hypothesis ended without re-raising although a violating case is on record (e.g. the failure happened in a
+    state machine's teardown).  Re-execute the recorded case directly: a reproducible violation is reported, anything
+    else is a harness error."""
+    case, out = rec.violation
+    again = run_case(mod, case)
+    if again.status == "violation":
+        rec.violation = (case, again)
+        return
+    if rec.first_violation is not None:
+        case1, _ = rec.first_violation
+        again1 = run_case(mod, case1)
+        if again1.status == "violation":
+            rec.violation = (case1, again1)
+            return
+    raise RuntimeError("violation did not reproduce: %r" % (rec.violation,))
+
+
 def load_module(pid):
     return importlib.import_module("pbt.props.%s" % pid.lower())
 
@@ -222,8 +240,8 @@ def _run(mod, pid, tier, seed, shard, nshards, budget, rec):
                 return
             raise
         if rec.violation is not None:
-            # a violation was seen but did not reproduce in the final replay -> flaky oracle = harness error
-            raise RuntimeError("violation did not reproduce: %r" % (rec.violation,))
+            _confirm_or_fail(mod, rec)
+            return
 
     # (3b) stateful machines
     if hasattr(mod, "make_machine"):
@@ -237,7 +255,8 @@ def _run(mod, pid, tier, seed, shard, nshards, budget, rec):
                 raise
             return
         if rec.violation is not None:
-            raise RuntimeError("violation did not reproduce: %r" % (rec.violation,))
+            _confirm_or_fail(mod, rec)
+            return
 
     # (4) extra engines (atheris etc.)
     if hasattr(mod, "extra_engine"):
